@@ -224,3 +224,150 @@ def rand_frame(rng, code=None, small=False):
     else:
         raise ValueError(code)
     return code, f
+
+
+# ------------------------------------------------------------------------------------------
+# packet headers (RFC 9000 §17) and transport parameters (§18)
+# ------------------------------------------------------------------------------------------
+
+H_VN, H_RETRY, H_INITIAL, H_ZERO_RTT, H_HANDSHAKE, H_ONE_RTT = range(6)
+
+
+def encode_header(kind, f):
+    """f = canonical field list of coq/Model/PacketsIO.v header_fields"""
+    it = iter(f)
+
+    def nbytes():
+        n = next(it)
+        return bytes(next(it) for _ in range(n))
+    if kind == H_ONE_RTT:
+        spin = next(it)
+        d = nbytes()
+        return bytes([0x40 | (0x20 if spin else 0)]) + d
+    d = nbytes()
+    s = nbytes()
+    cids = bytes([len(d)]) + d + bytes([len(s)]) + s
+    if kind == H_VN:
+        n = next(it)
+        vs = [next(it) for _ in range(n)]
+        return bytes([0x80]) + (0).to_bytes(4, "big") + cids + b"".join(v.to_bytes(4, "big") for v in vs)
+    first = {H_INITIAL: 0xc0, H_ZERO_RTT: 0xd0, H_HANDSHAKE: 0xe0, H_RETRY: 0xf0}[kind]
+    out = bytes([first]) + (1).to_bytes(4, "big") + cids
+    if kind == H_RETRY:
+        tok = nbytes()
+        integ = nbytes()
+        return out + tok + integ
+    if kind == H_INITIAL:
+        tok = nbytes()
+        return out + varint(len(tok)) + tok
+    return out
+
+
+def rand_cid(rng, lo=0):
+    return rand_bytes(rng, rng.choice([lo, max(lo, 1), 4, 8, 8, 19, 20]))
+
+
+def rand_header(rng, kind=None):
+    if kind is None:
+        kind = rng.randrange(6)
+    if kind == H_ONE_RTT:
+        return kind, [rng.randint(0, 1)] + pb(rand_cid(rng))
+    f = pb(rand_cid(rng)) + pb(rand_cid(rng))
+    if kind == H_VN:
+        n = rng.choice([0, 1, 2, 5])
+        f += [n] + [rng.choice([1, 2, 0xff00001d, rng.getrandbits(32)]) for _ in range(n)]
+    elif kind == H_RETRY:
+        f += pb(rand_bytes(rng, rng.choice([0, 1, 16, 40]))) + pb(rand_bytes(rng, 16))
+    elif kind == H_INITIAL:
+        f += pb(rand_bytes(rng, rng.choice([0, 0, 1, 20, 63, 64, 200])))
+    return kind, f
+
+
+def header_size(kind, f):
+    """bytes before the Length field"""
+    return len(encode_header(kind, f))
+
+
+def data_packet(rng, kind, f, payload_len, garbage=b""):
+    """a whole protected-looking packet: header, Length (long headers), payload bytes"""
+    h = encode_header(kind, f)
+    body = rand_bytes(rng, payload_len)
+    if kind == H_ONE_RTT:
+        return h + body, len(h)
+    ln = varint(payload_len)
+    return h + ln + body + garbage, len(h) + len(ln)
+
+
+# (id, value type) per RFC 9000 §18.2 + datagram (RFC 9221) + the project's extensions
+P_VARINT, P_BOOL, P_BYTES, P_DURATION, P_TOKEN, P_CID, P_PREF = range(7)
+PARAMS = {
+    0x00: P_CID, 0x01: P_DURATION, 0x02: P_TOKEN, 0x03: P_VARINT, 0x04: P_VARINT, 0x05: P_VARINT, 0x06: P_VARINT,
+    0x07: P_VARINT, 0x08: P_VARINT, 0x09: P_VARINT, 0x0a: P_VARINT, 0x0b: P_DURATION, 0x0c: P_BOOL, 0x0d: P_PREF,
+    0x0e: P_VARINT, 0x0f: P_CID, 0x10: P_CID, 0x20: P_VARINT, 0x2ab2: P_BOOL, 0xffee: P_BYTES,
+}
+SERVER_ONLY = {0x00, 0x02, 0x0d, 0x10}
+CLIENT_ONLY = {0xffee}
+BOUNDS = {0x03: (1200, 65527), 0x0a: (0, 20), 0x0e: (2, VARINT_MAX)}
+REQUIRED = {0: [0x0f], 1: [0x0f, 0x00]}
+
+
+def encode_param(pid, ty, v):
+    """v: int | None | bytes | (a4, a6, cid, tok)"""
+    out = varint(pid)
+    if ty in (P_VARINT, P_DURATION):
+        return out + varint(varint_size(v)) + varint(v)
+    if ty == P_BOOL:
+        return out + varint(0)
+    if ty in (P_BYTES, P_TOKEN, P_CID):
+        return out + varint(len(v)) + v
+    a4, a6, cid, tok = v
+    body = a4 + a6 + bytes([len(cid)]) + cid + tok
+    return out + varint(len(body)) + body
+
+
+def param_fields(pid, ty, v):
+    """canonical print of one parameter (coq/Model/PacketsIO.v print_params)"""
+    if ty == P_VARINT:
+        return [pid, 0, v]
+    if ty == P_BOOL:
+        return [pid, 1]
+    if ty == P_BYTES:
+        return [pid, 2] + pb(v)
+    if ty == P_DURATION:
+        return [pid, 3, v]
+    if ty == P_TOKEN:
+        return [pid, 4] + pb(v)
+    if ty == P_CID:
+        return [pid, 5] + pb(v)
+    a4, a6, cid, tok = v
+    return [pid, 6] + pb(a4) + pb(a6) + pb(cid) + pb(tok)
+
+
+def rand_param_value(rng, pid):
+    ty = PARAMS[pid]
+    if ty in (P_VARINT, P_DURATION):
+        if pid in BOUNDS:
+            lo, hi = BOUNDS[pid]
+            return rng.choice([lo, hi, lo + 1, max(lo, hi - 1), rng.randint(lo, min(hi, lo + 100000))])
+        if pid in (0x08, 0x09):
+            return rng.choice([0, 1, 100, (1 << 60) - 1, rand_varint(rng) % (1 << 60)])
+        return rand_varint(rng)
+    if ty == P_BOOL:
+        return None
+    if ty == P_BYTES:
+        return rand_bytes(rng, rng.choice([0, 1, 5, 63, 64, 300]))
+    if ty == P_TOKEN:
+        return rand_bytes(rng, 16)
+    if ty == P_CID:
+        return rand_cid(rng)
+    return (rand_bytes(rng, 6), rand_bytes(rng, 18), rand_cid(rng), rand_bytes(rng, 16))
+
+
+def rand_params(rng, role):
+    """a valid parameter set sent by `role` (0 client, 1 server): dict id -> value"""
+    ids = [p for p in PARAMS if not ((role == 0 and p in SERVER_ONLY) or (role == 1 and p in CLIENT_ONLY))]
+    chosen = set(REQUIRED[role])
+    for p in ids:
+        if rng.random() < 0.45:
+            chosen.add(p)
+    return dict((p, rand_param_value(rng, p)) for p in sorted(chosen))
